@@ -1,9 +1,12 @@
 package store
 
 import (
+	"bytes"
 	"context"
 	"encoding/json"
 	"fmt"
+	"os"
+	"path/filepath"
 	"regexp"
 	"sort"
 	"strings"
@@ -14,7 +17,9 @@ import (
 	"github.com/hashicorp/raft"
 	"github.com/rqlite/rqlite/v10/command"
 	"github.com/rqlite/rqlite/v10/command/proto"
+	sql "github.com/rqlite/rqlite/v10/db"
 	kit "github.com/rqlite/rqlite/v10/internal/verifkit"
+	"github.com/rqlite/rqlite/v10/snapshot"
 )
 
 // C25 part (a) "index": on a real single-node Store with CDC enabled, every
@@ -52,6 +57,14 @@ type c25aCase struct {
 	Tx     bool   `json:"tx"`
 	Entry  string `json:"entry"`
 	Filter string `json:"filter"`
+
+	// sections "filter" and "install" (empty Section = the request enumeration above)
+	Section string `json:"section,omitempty"`
+	Trigger string `json:"trigger,omitempty"` // filter: what (re-)registers the hooks before the judged steps: fresh | load | boot
+	First   string `json:"first,omitempty"`   // table hit by the first change after the first registration
+	First2  string `json:"first2,omitempty"`  // table hit by the first change after the re-registration
+	Rounds  int    `json:"rounds,omitempty"`  // install: number of snapshot installs
+	Lead    bool   `json:"lead,omitempty"`    // install: finally the follower is made leader and written through
 }
 
 type c25aNode struct {
@@ -60,6 +73,8 @@ type c25aNode struct {
 	filter  string
 	re      *regexp.Regexp
 	lastIdx uint64 // highest non-zero group index seen so far (order check)
+	name    string // node name in the multi-node section
+	seq     int    // makes inserted values unique
 }
 
 func c25aNewNode(t *testing.T, filter string) *c25aNode {
@@ -291,6 +306,7 @@ func (n *c25aNode) run(r *kit.Run, c c25aCase) {
 		shape = append(shape, fmt.Sprintf("%s:%d", lbl, len(g.Events)))
 	}
 	r.Distinct(mode + " " + strings.Join(shape, ","))
+	n.judgeOutside(r, groups, desc, "", c)
 
 	for _, d := range diff {
 		if n.re != nil && !n.re.MatchString(d.table) {
@@ -317,7 +333,7 @@ func (n *c25aNode) run(r *kit.Run, c c25aCase) {
 	}
 }
 
-func (n *c25aNode) judgeIndex(r *kit.Run, g *proto.CDCIndexedEventGroup, idx uint64, pos int, mode, desc string, c c25aCase) {
+func (n *c25aNode) judgeIndex(r c25aRec, g *proto.CDCIndexedEventGroup, idx uint64, pos int, mode, desc string, c any) {
 	where := "first-commit"
 	if pos > 0 {
 		where = "later-commit"
@@ -338,13 +354,426 @@ func (n *c25aNode) judgeIndex(r *kit.Run, g *proto.CDCIndexedEventGroup, idx uin
 	}
 }
 
+// ---------------------------------------------------------------------------
+// Sections "filter" and "install": hook (re-)registration.
+//
+// The Store registers the pre-update and commit hooks lazily, in fsmApply, and
+// must register them again whenever the SQLite connection was replaced (Load,
+// Boot, a Raft snapshot installed into the running node). The table filter is
+// evaluated inside the pre-update hook and memoised per registration. Both are
+// upstream of every delivery: a node whose hooks are gone, or whose filter memo
+// is wrong, hands over nothing (or the wrong tables) for the entries it applies.
+//
+// filter:  single node x filter {none, ^t$} x first change after the first
+//          registration on {t, o} x re-registration by {none, Load, Boot} x
+//          first change after the re-registration on {t, o}; after each
+//          (re-)registration a fixed sequence of requests that alternates
+//          between the two tables (single, non-transactional pair,
+//          transactional pair, update+delete) is judged request by request.
+// install: three voters (the cluster kit), CDC enabled on every node; a follower
+//          is cut off, the leader writes and snapshots with one trailing log,
+//          the link is healed and raft installs the snapshot into the running
+//          follower; then requests go through the leader and EVERY node that
+//          applies them must hand over the groups (right index, right rows,
+//          nothing outside the filter) - delivery is the leader's job, but a node
+//          that hands over nothing can never deliver once it leads. Optionally a
+//          second install and a leadership transfer to that follower.
+// Oracle as above, plus: no event of a table the filter excludes.
+
+// c25aRec is what the judging functions need of a kit.Run; the install section
+// records into a buffer first, so that an attempt which raft timing kept from
+// getting there (and which is repeated on a fresh cluster) is not counted twice.
+type c25aRec interface {
+	Eval(n int)
+	Distinct(key string)
+	Violation(key, what string, replay any)
+	Add(k string, n int64)
+}
+
+type c25aBuf struct {
+	all, vios []func(r *kit.Run)
+}
+
+func (b *c25aBuf) Eval(n int)          { b.all = append(b.all, func(r *kit.Run) { r.Eval(n) }) }
+func (b *c25aBuf) Distinct(key string) { b.all = append(b.all, func(r *kit.Run) { r.Distinct(key) }) }
+func (b *c25aBuf) Add(k string, n int64) {
+	b.all = append(b.all, func(r *kit.Run) { r.Add(k, n) })
+}
+func (b *c25aBuf) Violation(key, what string, replay any) {
+	f := func(r *kit.Run) { r.Violation(key, what, replay) }
+	b.all = append(b.all, f)
+	b.vios = append(b.vios, f)
+}
+
+// flush records everything of a completed attempt, or only the violations of an abandoned one.
+func (b *c25aBuf) flush(r *kit.Run, completed bool) {
+	ops := b.vios
+	if completed {
+		ops = b.all
+	}
+	for _, f := range ops {
+		f(r)
+	}
+}
+
+// judgeOutside: nothing of a table outside the filter may be handed over.
+func (n *c25aNode) judgeOutside(r c25aRec, groups []*proto.CDCIndexedEventGroup, desc, ctx string, replay any) {
+	if n.re == nil {
+		return
+	}
+	for _, g := range groups {
+		for _, ev := range g.Events {
+			if !n.re.MatchString(ev.Table) {
+				r.Violation("C25:event-from-table-outside-filter"+ctx, fmt.Sprintf("%s: a group labelled %d carries a %v of table %s, which the filter %q excludes", desc, g.Index, ev.Op, ev.Table, n.filter), replay)
+				return
+			}
+		}
+	}
+}
+
+// judgeEntry judges what node n handed over for log entry idx, whose committed row changes are diff.
+func (n *c25aNode) judgeEntry(r c25aRec, groups []*proto.CDCIndexedEventGroup, idx uint64, diff []c25aDiffItem, mode, desc, ctx string, replay any) {
+	r.Eval(1)
+	var shape []string
+	for gi, g := range groups {
+		n.judgeIndex(r, g, idx, gi, mode, desc, replay)
+		lbl := "other"
+		switch g.Index {
+		case idx:
+			lbl = "entry"
+		case 0:
+			lbl = "zero"
+		}
+		shape = append(shape, fmt.Sprintf("%s:%d", lbl, len(g.Events)))
+	}
+	r.Distinct(fmt.Sprintf("%s filter=%q %s %s", ctx, n.filter, mode, strings.Join(shape, ",")))
+	n.judgeOutside(r, groups, desc, ctx, replay)
+	for _, d := range diff {
+		if n.re != nil && !n.re.MatchString(d.table) {
+			continue
+		}
+		right, wrong := false, false
+		for _, g := range groups {
+			if c25aCovers(g, d) {
+				if g.Index == idx {
+					right = true
+				} else {
+					wrong = true
+				}
+			}
+		}
+		switch {
+		case right:
+		case wrong:
+			r.Add("changes_delivered_only_under_wrong_index", 1)
+		default:
+			r.Violation("C25:committed-change-not-delivered:"+mode+ctx, fmt.Sprintf("%s: %s row %d of %s (entry %d) is in no group handed over", desc, d.kind, d.id, d.table, idx), replay)
+		}
+	}
+}
+
+type c25aStep struct {
+	sqls []string
+	tx   bool
+}
+
+// c25aSteps: a request sequence whose first row change hits table `first`.
+func c25aSteps(first string, seq *int) []c25aStep {
+	*seq++
+	k := *seq
+	ins := func(tb string, j int) string {
+		return fmt.Sprintf("INSERT INTO %s(v) VALUES('%s%d_%d')", tb, tb, k, j)
+	}
+	x, y := "t", "o"
+	if first == "o" {
+		x, y = "o", "t"
+	}
+	return []c25aStep{
+		{[]string{ins(x, 1)}, false},
+		{[]string{ins(y, 2)}, false},
+		{[]string{ins(y, 3), ins(x, 4)}, false},
+		{[]string{ins(x, 5), ins(y, 6)}, true},
+		{[]string{"UPDATE t SET v=v||'!' WHERE id=(SELECT min(id) FROM t)", "DELETE FROM o WHERE id=(SELECT min(id) FROM o)"}, false},
+		{[]string{ins(x, 7), ins(x, 8)}, false},
+	}
+}
+
+func c25aStepMode(st c25aStep) string {
+	if st.tx {
+		return "tx"
+	}
+	return "non-tx"
+}
+
+// c25aLoadFile is a SQLite file with the tables t and o (for Load and Boot).
+func c25aLoadFile(dir string) []byte {
+	p := filepath.Join(dir, "c25a-load.db")
+	os.Remove(p)
+	d, err := sql.Open(p, false, false)
+	if err != nil {
+		panic(err)
+	}
+	for _, q := range []string{
+		"CREATE TABLE t (id INTEGER PRIMARY KEY, v TEXT UNIQUE)",
+		"CREATE TABLE o (id INTEGER PRIMARY KEY, v TEXT)",
+		"INSERT INTO t(id,v) VALUES(1,'L1'),(2,'L2')",
+		"INSERT INTO o(id,v) VALUES(1,'LO1'),(2,'LO2')",
+	} {
+		if res, err := d.ExecuteStringStmt(q); err != nil || res[0].GetError() != "" {
+			panic(fmt.Sprintf("C25a harness: %s: %v %v", q, err, res))
+		}
+	}
+	if err := d.Close(); err != nil {
+		panic(err)
+	}
+	b, err := os.ReadFile(p)
+	if err != nil {
+		panic(err)
+	}
+	os.Remove(p)
+	return b
+}
+
+func c25aExecOK(s *Store, st c25aStep) (uint64, error) {
+	res, idx, err := s.Execute(context.Background(), executeRequestFromStrings(st.sqls, false, st.tx))
+	if err != nil {
+		return 0, err
+	}
+	for _, x := range res {
+		if x.GetError() != "" {
+			return 0, fmt.Errorf("statement error: %s", x.GetError())
+		}
+	}
+	return idx, nil
+}
+
+// c25aFilterScenario runs one single-node case of section "filter".
+func c25aFilterScenario(t *testing.T, r *kit.Run, c c25aCase, file []byte) {
+	n := c25aNewNode(t, c.Filter)
+	defer n.s.Close(true)
+	runSteps := func(first, ctx string) {
+		for i, st := range c25aSteps(first, &n.seq) {
+			desc := fmt.Sprintf("filter=%q first-registration-then-%s, first change on %s/%s, %s, step %d %v", c.Filter, c.Trigger, c.First, c.First2, ctx, i+1, st.sqls)
+			before := n.image()
+			idx, err := c25aExecOK(n.s, st)
+			if err != nil {
+				r.Violation("C25:request-error"+ctx, desc+": "+err.Error(), c)
+				return
+			}
+			groups := n.drain()
+			n.judgeEntry(r, groups, idx, c25aDiff(before, n.image()), c25aStepMode(st), desc, ctx, c)
+		}
+	}
+	runSteps(c.First, ":after-first-registration")
+	switch c.Trigger {
+	case "load":
+		if err := n.s.Load(context.Background(), &proto.LoadRequest{Data: file}); err != nil {
+			panic("C25a harness: load: " + err.Error())
+		}
+	case "boot":
+		if _, err := n.s.ReadFrom(bytes.NewReader(file)); err != nil {
+			panic("C25a harness: boot: " + err.Error())
+		}
+	default:
+		return
+	}
+	for _, g := range n.drain() { // replacing the database commits no row change of a log entry
+		r.Add("groups_handed_over_by_load_or_boot", int64(len(g.Events)))
+	}
+	runSteps(c.First2, ":after-"+c.Trigger)
+}
+
+func c25aFilterCases() []c25aCase {
+	var cs []c25aCase
+	for _, f := range []string{"", "^t$"} {
+		for _, first := range []string{"t", "o"} {
+			cs = append(cs, c25aCase{Section: "filter", Filter: f, Trigger: "fresh", First: first})
+			for _, tr := range []string{"load", "boot"} {
+				for _, first2 := range []string{"t", "o"} {
+					cs = append(cs, c25aCase{Section: "filter", Filter: f, Trigger: tr, First: first, First2: first2})
+				}
+			}
+		}
+	}
+	return cs
+}
+
+func c25aInstallCases(thorough bool) []c25aCase {
+	var cs []c25aCase
+	for _, f := range []string{"", "^t$"} {
+		for _, first2 := range []string{"t", "o"} {
+			if !thorough {
+				cs = append(cs, c25aCase{Section: "install", Filter: f, First: "t", First2: first2, Rounds: 1, Lead: first2 == "o"})
+				continue
+			}
+			for _, first := range []string{"t", "o"} {
+				for _, rounds := range []int{1, 2} {
+					cs = append(cs, c25aCase{Section: "install", Filter: f, First: first, First2: first2, Rounds: rounds, Lead: true})
+				}
+			}
+		}
+	}
+	return cs
+}
+
+// c25aInstallScenario runs one case of section "install". It returns "" when the
+// scenario was carried out, else why the cluster could not be brought there
+// (machinery, not a verdict).
+func c25aInstallScenario(t *testing.T, run *kit.Run, c c25aCase) (why string) {
+	r := &c25aBuf{}
+	defer func() { r.flush(run, why == "") }()
+	cl, err := vcNewCluster(vcOpts{N: 3})
+	if err != nil {
+		return "cluster start: " + err.Error()
+	}
+	defer cl.Close()
+	leader := cl.Leader()
+	if leader < 0 {
+		return "no leader"
+	}
+	if _, err := c25aExecOK(cl.nodes[leader].store(), c25aStep{sqls: []string{
+		"CREATE TABLE t (id INTEGER PRIMARY KEY, v TEXT UNIQUE)",
+		"CREATE TABLE o (id INTEGER PRIMARY KEY, v TEXT)"}}); err != nil {
+		return "schema: " + err.Error()
+	}
+	nodes := make([]*c25aNode, len(cl.nodes))
+	for i, vn := range cl.nodes {
+		n := &c25aNode{s: vn.store(), ch: make(chan *proto.CDCIndexedEventGroup, 4096), filter: c.Filter, name: vn.id}
+		if c.Filter != "" {
+			n.re = regexp.MustCompile(c.Filter)
+		}
+		if err := n.s.EnableCDC(n.ch, n.re, false); err != nil {
+			return "EnableCDC: " + err.Error()
+		}
+		nodes[i] = n
+	}
+	follower := len(cl.nodes) - 1
+	if follower == leader {
+		follower--
+	}
+	seq := 0
+	waitApplied := func(i int, idx uint64) bool {
+		dl := time.Now().Add(60 * time.Second)
+		for nodes[i].s.fsmIdx.Load() < idx {
+			if time.Now().After(dl) {
+				return false
+			}
+			time.Sleep(2 * time.Millisecond)
+		}
+		return true
+	}
+	// runSteps sends the requests through the current leader and judges every node in `on`
+	runSteps := func(first, ctx string, on []int) string {
+		for i, st := range c25aSteps(first, &seq) {
+			ld := nodes[leader]
+			before := ld.image()
+			idx, err := c25aExecOK(ld.s, st)
+			if err != nil {
+				return fmt.Sprintf("%s step %d through %s: %v", ctx, i+1, ld.name, err)
+			}
+			diff := c25aDiff(before, ld.image())
+			for _, j := range on {
+				role := "follower"
+				if j == leader {
+					role = "leader"
+				}
+				if j == follower {
+					role += " (the node the snapshot is installed into)"
+				}
+				desc := fmt.Sprintf("filter=%q first changes on %s/%s, %d install(s), %s, step %d %v applied as entry %d on node %s, %s", c.Filter, c.First, c.First2, c.Rounds, ctx, i+1, st.sqls, idx, nodes[j].name, role)
+				if !waitApplied(j, idx) {
+					return fmt.Sprintf("%s: node %s did not apply entry %d within 60 s", ctx, nodes[j].name, idx)
+				}
+				nodes[j].judgeEntry(r, nodes[j].drain(), idx, diff, c25aStepMode(st), desc, ctx, c)
+			}
+		}
+		return ""
+	}
+	all := []int{0, 1, 2}
+	var others []int
+	for _, j := range all {
+		if j != follower {
+			others = append(others, j)
+		}
+	}
+	if why := runSteps(c.First, ":before-snapshot-install", all); why != "" {
+		return why
+	}
+	firsts := []string{c.First2, c.First} // the first change after the 2nd install hits the other table
+	for round := 0; round < c.Rounds; round++ {
+		cl.net.Isolate(follower)
+		if why := runSteps(firsts[(round+1)%2], ":before-snapshot-install", others); why != "" {
+			cl.net.Heal()
+			return why
+		}
+		ls := nodes[leader].s
+		if err := ls.Snapshot(1); err != nil {
+			cl.net.Heal()
+			return "leader snapshot: " + err.Error()
+		}
+		snapIdx, _, err := ls.snapshotStore.(*snapshot.Store).LatestIndexTerm()
+		if err != nil {
+			cl.net.Heal()
+			return "leader snapshot index: " + err.Error()
+		}
+		cl.net.Heal()
+		cl.FreshenConns(all)
+		fs := nodes[follower].s
+		dl := time.Now().Add(90 * time.Second)
+		for {
+			li, _, err := fs.snapshotStore.(*snapshot.Store).LatestIndexTerm()
+			if err == nil && li >= snapIdx && fs.fsmIdx.Load() >= snapIdx {
+				break
+			}
+			if time.Now().After(dl) {
+				return fmt.Sprintf("node %s did not install the leader's snapshot (index %d) within 90 s", nodes[follower].name, snapIdx)
+			}
+			time.Sleep(5 * time.Millisecond)
+		}
+		if l, err := cl.Settle(60 * time.Second); err != nil {
+			return "settle after heal: " + err.Error()
+		} else {
+			leader = l
+		}
+		nodes[follower].drain() // entries covered by the snapshot are not applied one by one on this node
+		r.Add("snapshot_installs_into_running_follower", 1)
+		if why := runSteps(firsts[round%2], ":after-snapshot-install", all); why != "" {
+			return why
+		}
+	}
+	if c.Lead && leader != follower {
+		var terr error
+		for try := 0; try < 5 && leader != follower; try++ {
+			// raft refuses or abandons a transfer while the target is not caught up or a
+			// heartbeat is in flight: ask again
+			terr = cl.Stepdown(leader, follower)
+			cl.WaitLeader([]int{follower}, 0, 3*time.Second)
+			l, err := cl.Settle(60 * time.Second)
+			if err != nil {
+				return "settle after transfer: " + err.Error()
+			}
+			leader = l
+		}
+		if leader != follower {
+			return fmt.Sprintf("leadership did not go to the follower in 5 transfers (leader is node %d, last error %v)", leader, terr)
+		}
+		r.Add("leadership_transfers_to_that_follower", 1)
+		if why := runSteps(c.First2, ":after-snapshot-install", all); why != "" {
+			return why
+		}
+	}
+	return ""
+}
+
+
 func TestVerif_C25_index(t *testing.T) {
 	r := kit.Start(t, "C25", "index")
 	defer r.Finish()
 	maxLen := 3
 	r.Rule(fmt.Sprintf("every request of 1..%d statements over a menu of %d (single-row insert that fails on repetition, multi-row insert, update one row, update no row, delete one row, multi-row insert failing after its first row, statement failing at prepare, DDL, SELECT, insert into a table outside the filter) x transaction flag x entry point {Store.Execute, Store.Request} x CDC table filter {none, ^t$}, each applied as one Raft log entry on a live single-node Store after a reset entry; distinct = (tx, per-group label entry/zero/other and event count) shapes", maxLen, len(c25aMenu)))
 	r.Assume("a row change is 'committed by the entry' iff the table image (by rowid) read from the store's database differs before/after the request; changes that cancel out inside one request are not demanded")
-	r.Assume("single node, CDC hand-off channel never full (capacity 4096, drained after every request)")
+	r.Assume("CDC hand-off channel never full (capacity 4096, drained after every request)")
+	r.Assume("section install: row changes of an entry are read off the leader's database before/after the request; the entries a cut-off follower receives inside an installed snapshot are not applied one by one there and no groups are demanded for them on that node")
 
 	var cases []c25aCase
 	var gen func(prefix []int, n int)
@@ -374,9 +803,18 @@ func TestVerif_C25_index(t *testing.T) {
 		if err := json.Unmarshal(raw, &c); err != nil {
 			t.Fatal(err)
 		}
-		n := c25aNewNode(t, c.Filter)
-		defer n.s.Close(true)
-		n.run(r, c)
+		switch c.Section {
+		case "filter":
+			c25aFilterScenario(t, r, c, c25aLoadFile(kit.Scratch(t)))
+		case "install":
+			if why := c25aInstallScenario(t, r, c); why != "" {
+				t.Fatalf("install scenario not carried out: %s", why)
+			}
+		default:
+			n := c25aNewNode(t, c.Filter)
+			defer n.s.Close(true)
+			n.run(r, c)
+		}
 		return
 	}
 
@@ -401,4 +839,51 @@ func TestVerif_C25_index(t *testing.T) {
 	}
 	wg.Wait()
 	r.Set("requests_per_filter", int64(len(cases)))
+
+	// section "filter"
+	file := c25aLoadFile(kit.Scratch(t))
+	fcases := c25aFilterCases()
+	sem := make(chan struct{}, 8)
+	for _, c := range fcases {
+		wg.Add(1)
+		sem <- struct{}{}
+		go func(c c25aCase) {
+			defer wg.Done()
+			defer func() { <-sem }()
+			c25aFilterScenario(t, r, c, file)
+		}(c)
+	}
+	wg.Wait()
+	r.Set("filter_section_scenarios", int64(len(fcases)))
+
+	// section "install"
+	icases := c25aInstallCases(r.Thorough())
+	isem := make(chan struct{}, 4)
+	var imu sync.Mutex
+	carried := 0
+	for _, c := range icases {
+		wg.Add(1)
+		isem <- struct{}{}
+		go func(c c25aCase) {
+			defer wg.Done()
+			defer func() { <-isem }()
+			var why string
+			for try := 0; try < 3; try++ { // raft timing can keep a cluster from getting there: try again on a fresh one
+				if why = c25aInstallScenario(t, r, c); why == "" {
+					break
+				}
+				r.Add("install_scenarios_restarted", 1)
+			}
+			imu.Lock()
+			defer imu.Unlock()
+			if why == "" {
+				carried++
+			} else {
+				r.Cap("install scenario %+v not carried out after 3 attempts: %s", c, why)
+			}
+		}(c)
+	}
+	wg.Wait()
+	r.Set("install_section_scenarios", int64(len(icases)))
+	r.Set("install_section_scenarios_carried_out", int64(carried))
 }
